@@ -31,6 +31,7 @@ type FuncReport struct {
 	Intrinsics  []string     `json:"intrinsics,omitempty"`
 	Notes       []string     `json:"notes,omitempty"`
 	Vacuity     string       `json:"vacuity"`
+	covers      []*Obligation
 	Seconds     float64      `json:"seconds"`
 	Clauses     int          `json:"contract_clauses"`
 	obls        []*Obligation
@@ -394,6 +395,10 @@ func (v *Verifier) verifyCase(fi *FuncInfo, con *Contract, rep *FuncReport, case
 		}
 		v.checkFrame(fr, o, con)
 		fr.resultV = nil
+		// reachability cover: the path condition at this return must not be contradictory
+		if !(caseIdx >= 0 && caseIdx == len(con.Split)) { // the remainder of an exhaustive split is legitimately infeasible
+			rep.covers = append(rep.covers, &Obligation{Name: rep.Name + caseTag + "#reach", Path: nret - 1, Func: v.curFn, Kind: "cover", Goal: c.False(), Assume: append([]*Term{}, o.pc...), ctx: v.eng.C})
+		}
 	}
 	if v.curReplay != nil {
 		v.curReplay.codes = map[string]int{}
@@ -868,13 +873,48 @@ func dischargeAll(reps []*FuncReport, timeoutS int, par int, keepDir string) {
 					j.r.Detail += "\ncandidate counterexample (model of the query with quantified assumptions instantiated, not confirmed):\n" + truncate(res.Candidate, 3000)
 				}
 			}
-			if keepDir != "" && j.r.Status != "discharged" {
+			if keepDir != "" && (j.r.Status != "discharged" || os.Getenv("GOVC_KEEPALL") != "") {
 				os.MkdirAll(keepDir, 0o755)
 				os.WriteFile(filepath.Join(keepDir, base+".smt2"), []byte(script), 0o644)
 			}
 		}()
 	}
 	wg.Wait()
+	// reachability covers: a function (case) all of whose return paths have a refutable path
+	// condition proves everything vacuously
+	for _, rep := range reps {
+		groups := map[string][]*Obligation{}
+		for _, o := range rep.covers {
+			groups[o.Name] = append(groups[o.Name], o)
+		}
+		for name, os := range groups {
+			if len(os) > 8 {
+				continue
+			}
+			allRefuted := true
+			for _, o := range os {
+				assume := o.Assume
+				if extra := o.ctx.preInstantiate(append(append([]*Term{}, o.ctx.Axioms...), assume...), o.Goal, instRounds, 200); len(extra) > 0 {
+					assume = append(append([]*Term{}, assume...), extra...)
+				}
+				assume = append(append([]*Term{}, o.ctx.Axioms...), assume...)
+				var rel []*Term
+				for _, a := range assume {
+					if r := o.ctx.relaxAssumption(a); r != nil && !r.IsTrue() {
+						rel = append(rel, r)
+					}
+				}
+				res := Solve(o.ctx.Script(assume, o.Goal, "", true), o.ctx.Script(rel, o.Goal, "", true), "", workDir(), sanitize(fmt.Sprintf("%s.p%d", o.Name, o.Path)), 3, nil)
+				if res.Status != "unsat" {
+					allRefuted = false
+					break
+				}
+			}
+			if allRefuted {
+				rep.Vacuity = "VACUOUS: every return path of " + name + " has a contradictory path condition (inconsistent contracts, invariants or assumptions)"
+			}
+		}
+	}
 }
 
 func truncate(s string, n int) string {
@@ -930,5 +970,11 @@ func externalStruct(t types.Type) bool {
 	if !ok || n.Obj().Pkg() == nil {
 		return false
 	}
+	if symbolicTypes[n.Obj().Pkg().Path()+"."+n.Obj().Name()] {
+		return true
+	}
 	return !strings.HasPrefix(n.Obj().Pkg().Path(), "github.com/markkurossi/mpc")
 }
+
+// symbolicTypes: repo struct types declared `symbolic` in a contract file ("pkgpath.Type").
+var symbolicTypes = map[string]bool{}
